@@ -25,6 +25,13 @@ CHECKS = {
             "every key, type, order and nesting compared. Held on the documents observed.",
             "Trusted: mf/expect.py as a restatement of docs/transformer.rst; mf/exprmodel.py for expression values.",
             "DESIGN.md 2 C02"),
+    "C03": ("icontract postcondition on the real PrettyPrinter.pprint: the returned text is read by an independent scanner and "
+            "walked in lock-step with the dictionary (lexical class per value decided by an independent schema reader)",
+            "Vocabulary dictionaries built without the parser, generated/loaded documents, corpus files and 1-30 step dict-API "
+            "edit histories (incl. reads of missing keys) printed through dumps/dump/save/pprint; every call is judged. "
+            "Held on the calls observed; precondition failures are counted as skipped.",
+            "Trusted: mf/reader.py (scanner), mf/printcheck.py (walker), mf/vocab.py (required lexical class).",
+            "DESIGN.md 2 C03"),
     "C05": ("metamorphic relation over recorded parse events: all surface renderings of one intended structure, and a corpus "
             "file and its whitespace/comment perturbations, must give identical dictionaries",
             "8 random surfaces per generated document (keyword case, separators incl. FF/CRLF/comments, quote style, bare words, "
@@ -38,6 +45,12 @@ CHECKS = {
             "precedence table and compared with the tree the generator intended. Held on the trees observed.",
             "Trusted: mf/exprmodel.py (precedence table as stated in the property); numbers compared by value.",
             "DESIGN.md 2 C10"),
+    "C16": ("icontract postcondition on the real PrettyPrinter.pprint (layout part): per-line indentation, END placement, END "
+            "comments, line-break characters and alignment column computed from an independent reading of the output",
+            "Vocabulary, generated, loaded (with comments), edited and corpus dictionaries x the formatter option sets of C06 "
+            "(quick: pairwise-covering subset; thorough: all 864). Held on the lines observed.",
+            "Trusted: mf/reader.py, mf/printcheck.py layout rules as a restatement of the property.",
+            "DESIGN.md 2 C16"),
     "C17": ("reference-model shadow stepped in lock-step with the real dict + icontract class invariant, over an "
             "exhaustive BFS of abstract states and random walks",
             "Every operation sequence up to the stated depth over a 7-key / 4-value alphabet is executed on the real "
